@@ -1,5 +1,6 @@
 import XmlRsModel.XPath.Eval
 import XmlRsModel.Lemmas.PegSound
+import XmlRsModel.Lemmas.XDepth
 /-! Property C08: equivalent XPath spellings evaluate identically; precedence per grammar.
     The abbreviations are removed by the abstraction `CST → Expr` (`XPath/Ast.lean`), which maps the
     abbreviated and the unabbreviated spelling to the SAME abstract syntax; here the semantic side
@@ -7,8 +8,11 @@ import XmlRsModel.Lemmas.PegSound
     accepted expression is a derivation of the layered expression grammar generated from the source
     (or < and < equality < relational < additive < multiplicative < unary < union), consuming the
     whole string.
-    FULL STATEMENT not yet proved (completeness direction, covered by the tie on every spelling of
-    every generated expression):  `∀ e st₁ st₂, eval (parse (spell st₁ e)) = eval (parse (spell st₂ e))`. -/
+    FULL STATEMENT, proved below over concrete expressions (`XPath/Concrete.lean`: an abstract expression plus every
+    surface choice -- white space, quotes, abbreviated or spelled-out axes, `//`, redundant layers): every well-formed
+    spelling `e` is parsed to the abstract expression `e.erase` it denotes (`spelling_parses`), hence two spellings
+    of one expression evaluate identically (`equivalent_spellings_evaluate_identically`), and the abbreviations denote
+    their expansions (`abbreviations_denote_their_expansions`). -/
 namespace XmlRs.C08
 open XmlRs XmlRs.XPath
 
@@ -93,7 +97,7 @@ theorem abbreviated_axes (nm : Str) : axisOfName "child" = .child ∧ axisOfName
     whole input: operators bind as the productions nest -/
 theorem parse_sound (s : Str) (e : Expr) (h : parseExpr s = .ok e) :
     ∃ c, Derives Gen.XPath.env (.nt Gen.XPath.N.parse) c ∧ c.flatten = s := by
-  unfold parseExpr at h
+  unfold parseExpr parseExprFuel at h
   split at h
   · cases h
   · cases h
@@ -113,7 +117,7 @@ theorem parse_sound (s : Str) (e : Expr) (h : parseExpr s = .ok e) :
 theorem depth_refused (s : Str) (e : Expr) (h : parseExpr s = .ok e) (hlim : Gen.XPath.maxDepth_expr ≠ 0) :
     ∃ c rest, run Gen.XPath.env (xpathFuel s) (.nt Gen.XPath.N.parse) s = .ok c rest ∧
       exprDepth c ≤ Gen.XPath.maxDepth_expr := by
-  unfold parseExpr at h
+  unfold parseExpr parseExprFuel at h
   split at h
   · cases h
   · cases h
@@ -126,5 +130,125 @@ theorem depth_refused (s : Str) (e : Expr) (h : parseExpr s = .ok e) (hlim : Gen
       intro hgt
       apply hd
       simp [hlim, hgt]
+
+/-! ### completeness: every spelling of an expression is parsed to that expression -/
+open XmlRs.XLex in
+/-- the tree the expression parser builds for a spelling -/
+theorem spelling_runs (e : CX) (hok : e.ok = true) :
+    Runs Gen.XPath.env (.nt Gen.XPath.N.parse) e.str (.ok (.node Gen.XPath.N.parse (.node Gen.XPath.N.expr (cstX e))) []) := by
+  have h := runs_x e 0 hok [] (Cont.nil 0) (fun _ => rootSafe_nil)
+  simp only [ntOfLevel, levelNt, List.append_nil] at h
+  apply Runs.nt_of Gen.XPath.env_parse
+  show Runs Gen.XPath.env (.nt Gen.XPath.N.expr) _ _
+  apply Runs.nt_of Gen.XPath.env_expr
+  rw [expr_prod]
+  exact h
+
+open XmlRs.XLex in
+private theorem abs_of_tree (e : CX) (hok : e.ok = true) :
+    absNode ((CST.node Gen.XPath.N.parse (.node Gen.XPath.N.expr (cstX e))).size + 2) Gen.XPath.N.parse (.node Gen.XPath.N.expr (cstX e)) = e.erase := by
+  have h := abs_x e 0 hok (cstX e).size (Nat.le_refl _)
+  have e1 : (CST.node Gen.XPath.N.parse (.node Gen.XPath.N.expr (cstX e))).size + 2 = (cstX e).size + 2 + 2 := by simp [CST.size]
+  rw [e1, absNode_parse, cstX_eq e, absNode_expr, ← cstX_eq e, h]
+
+open XmlRs.XLex in
+private theorem depth_of_tree (e : CX) : exprDepth (CST.node Gen.XPath.N.parse (.node Gen.XPath.N.expr (cstX e))) = e.nest + 1 := by
+  rw [depth_node_other (by decide), depth_node_expr, depth_x]
+
+/-- EVERY SPELLING IS PARSED TO THE EXPRESSION IT DENOTES.  `e` ranges over concrete expressions: an abstract expression
+    together with every surface choice (white space around operators, parentheses, brackets, commas and `::`; quote
+    characters; `@`/`attribute::`, omitted/`child::`, `.`/`..`/`//` or their expansions; which grammar layers are passed
+    through); `e.ok` says the choices are lexically admissible (e.g. white space between a name and `div`), `e.nest` is
+    the nesting of parentheses, predicates and arguments, limited by `MAX_EXPR_DEPTH` (0 = no limit).  For every fuel
+    from some point on, the parser generated from the source returns exactly `e.erase`. -/
+theorem spelling_parses (e : CX) (hok : e.ok = true) (hdepth : Gen.XPath.maxDepth_expr = 0 ∨ e.nest + 1 ≤ Gen.XPath.maxDepth_expr) :
+    ∃ f0, ∀ f, f0 ≤ f → parseExprFuel f e.str = .ok e.erase := by
+  obtain ⟨f0, h⟩ := spelling_runs e hok
+  refine ⟨f0, fun f hf => ?_⟩
+  have hd : (Gen.XPath.maxDepth_expr != 0 && decide (exprDepth (CST.node Gen.XPath.N.parse (.node Gen.XPath.N.expr (XLex.cstX e))) > Gen.XPath.maxDepth_expr)) = false := by
+    rw [depth_of_tree]
+    rcases hdepth with h0 | h1
+    · simp [h0]
+    · have : ¬ (e.nest + 1 > Gen.XPath.maxDepth_expr) := by omega
+      simp [this]
+  simp only [parseExprFuel, h f hf, hd, Bool.false_eq_true, if_false, List.isEmpty_nil, if_true, abs_of_tree e hok]
+
+/-- the same at the fuel the model's `parseExpr` runs with: the answer is the expression, unless the fuel formula of
+    the model were too small (an artefact of the model, never observed by the tie) -/
+theorem spelling_parses_at_model_fuel (e : CX) (hok : e.ok = true) (hdepth : Gen.XPath.maxDepth_expr = 0 ∨ e.nest + 1 ≤ Gen.XPath.maxDepth_expr) :
+    parseExpr e.str = .ok e.erase ∨ parseExpr e.str = .error .fuel := by
+  have hrun := spelling_runs e hok
+  have hd : (Gen.XPath.maxDepth_expr != 0 && decide (exprDepth (CST.node Gen.XPath.N.parse (.node Gen.XPath.N.expr (XLex.cstX e))) > Gen.XPath.maxDepth_expr)) = false := by
+    rw [depth_of_tree]
+    rcases hdepth with h0 | h1
+    · simp [h0]
+    · have : ¬ (e.nest + 1 > Gen.XPath.maxDepth_expr) := by omega
+      simp [this]
+  rcases hrun.at_fuel (xpathFuel e.str) with h | h
+  · left
+    simp only [parseExpr, parseExprFuel, h, hd, Bool.false_eq_true, if_false, List.isEmpty_nil, if_true, abs_of_tree e hok]
+  · right
+    simp only [parseExpr, parseExprFuel, h]
+
+/-- two spellings of one abstract expression are parsed alike -/
+theorem equivalent_spellings_parse_alike (e1 e2 : CX) (h1 : e1.ok = true) (h2 : e2.ok = true) (he : e1.erase = e2.erase)
+    (hd1 : Gen.XPath.maxDepth_expr = 0 ∨ e1.nest + 1 ≤ Gen.XPath.maxDepth_expr) (hd2 : Gen.XPath.maxDepth_expr = 0 ∨ e2.nest + 1 ≤ Gen.XPath.maxDepth_expr) :
+    ∃ f0, ∀ f, f0 ≤ f → parseExprFuel f e1.str = parseExprFuel f e2.str := by
+  obtain ⟨f1, hf1⟩ := spelling_parses e1 h1 hd1
+  obtain ⟨f2, hf2⟩ := spelling_parses e2 h2 hd2
+  exact ⟨max f1 f2, fun f hf => by rw [hf1 f (by omega), hf2 f (by omega), he]⟩
+
+/-- EQUIVALENT SPELLINGS EVALUATE IDENTICALLY: over any document and context, the two queries give the same value or
+    the same error (unless the model's fuel formula gave out on one of them) -/
+theorem equivalent_spellings_evaluate_identically (env : XPath.Env) (e1 e2 : CX) (h1 : e1.ok = true) (h2 : e2.ok = true) (he : e1.erase = e2.erase)
+    (hd1 : Gen.XPath.maxDepth_expr = 0 ∨ e1.nest + 1 ≤ Gen.XPath.maxDepth_expr) (hd2 : Gen.XPath.maxDepth_expr = 0 ∨ e2.nest + 1 ≤ Gen.XPath.maxDepth_expr) :
+    query env e1.str = query env e2.str ∨ query env e1.str = .error .fuel ∨ query env e2.str = .error .fuel := by
+  rcases spelling_parses_at_model_fuel e1 h1 hd1 with p1 | p1
+  · rcases spelling_parses_at_model_fuel e2 h2 hd2 with p2 | p2
+    · left; simp only [query, p1, p2, he]
+    · right; right; simp only [query, p2]
+  · right; left; simp only [query, p1]
+
+/-- the abbreviations denote their expansions: `.` is `self::node()`, `..` is `parent::node()`, `@n` is `attribute::n`,
+    an omitted axis is `child::`, and `a//b` is `a/descendant-or-self::node()/b` -/
+theorem abbreviations_denote_their_expansions (w1 w2 w3 w4 : Str) (t : CTest) (p : CPreds) (s : CStep) (r : CRelTail) :
+    CStep.dot.erase = (CStep.full (.named .self w1) w2 (.typeTest .node w3 w4) .nil).erase ∧
+    CStep.dotdot.erase = (CStep.full (.named .parent w1) w2 (.typeTest .node w3 w4) .nil).erase ∧
+    (CStep.full .attr w2 t p).erase = (CStep.full (.named .attribute w1) w2 t p).erase ∧
+    (CStep.full .omitted [] t p).erase = (CStep.full (.named .child w1) w2 t p).erase ∧
+    (CRelTail.cons w1 true w2 s r).erase =
+      (CRelTail.cons w1 false w2 (.full (.named .descendantOrSelf w3) w4 (.typeTest .node w3 w4) .nil) (.cons w1 false w2 s r)).erase := by
+  simp [CStep.erase, CAxis.erase, CTest.erase, CPreds.erase, CRelTail.erase, dosStep]
+
+/-! ### the hypotheses are satisfiable: two spellings of one expression, abbreviated and spelled out -/
+/-- pass a path expression up through the operator layers -/
+def up8 (p : CX) : CX :=
+  .chain 0 (.chain 1 (.chain 2 (.chain 3 (.chain 4 (.chain 5 (.unary [] (.union p .nil)) .nil) .nil) .nil) .nil) .nil) .nil
+def exOne : CX := up8 (.pathF (.filter (.num ['1']) .nil))
+def exNameA : CTest := .name ⟨none, ['a']⟩
+def exNameB : CTest := .name ⟨none, ['b']⟩
+/-- `a//b[1]` -/
+def exAbbrev : CX := up8 (.pathRel (.mk (.full .omitted [] exNameA .nil) (.cons [] true [] (.full .omitted [] exNameB (.cons [] [] exOne [] .nil)) .nil)))
+/-- `child::a/descendant-or-self::node()/child :: b [ 1 ]` -/
+def exFull : CX := up8 (.pathRel (.mk (.full (.named .child []) [] exNameA .nil)
+  (.cons [] false [] (.full (.named .descendantOrSelf []) [] (.typeTest .node [] []) .nil)
+    (.cons [] false [] (.full (.named .child [' ']) [' '] exNameB (.cons [' '] [' '] exOne [' '] .nil)) .nil))))
+
+example : exAbbrev.str = ['a', '/', '/', 'b', '[', '1', ']'] := by decide
+example : exFull.str = "child::a/descendant-or-self::node()/child :: b [ 1 ]".toList := by decide
+example : exAbbrev.ok = true ∧ exFull.ok = true ∧ exAbbrev.str ≠ exFull.str ∧
+    exAbbrev.nest + 1 ≤ Gen.XPath.maxDepth_expr ∧ exFull.nest + 1 ≤ Gen.XPath.maxDepth_expr := by decide
+example : exAbbrev.erase = exFull.erase := by rfl
+
+/-- operators: `1 - -1 div 1 or $v` with and without the optional white space -/
+def exVar : CX := .unary [] (.union (.pathF (.filter (.var ⟨none, ['v']⟩) .nil)) .nil)
+def exNum5 : CX := .chain 5 (.unary [] (.union (.pathF (.filter (.num ['1']) .nil)) .nil)) .nil
+def exNeg : CX := .unary [[]] (.union (.pathF (.filter (.num ['1']) .nil)) .nil)
+def exOps (w : Str) : CX :=
+  .chain 0 (.chain 1 (.chain 2 (.chain 3 (.chain 4 exNum5 (.cons [' '] .sub w (.chain 5 exNeg (.cons [' '] .div w (.unary [] (.union (.pathF (.filter (.num ['1']) .nil)) .nil)) .nil)) .nil)) .nil) .nil) .nil)
+    (.cons [' '] .or w (.chain 1 (.chain 2 (.chain 3 (.chain 4 (.chain 5 exVar .nil) .nil) .nil) .nil) .nil) .nil)
+example : (exOps []).str = "1 --1 div1 or$v".toList ∧ (exOps [' ']).str = "1 - -1 div 1 or $v".toList := by decide
+example : (exOps []).ok = true ∧ (exOps [' ']).ok = true := by decide
+example : (exOps []).erase = (exOps [' ']).erase := by rfl
 
 end XmlRs.C08
